@@ -108,6 +108,7 @@ func main() {
 	r.FloorCount("acked_mutations", int64(r.Pick(1000, 15000)))
 	r.FloorCount("linearizable_reads_judged", int64(r.Pick(300, 5000)))
 	r.FloorCount("linearizable_reads_on_lagging_node_while_behind", int64(r.Pick(50, 800)))
+	r.FloorCount("probe_readonly_txns", int64(r.Pick(2000, 20000)))
 	r.FloorCount("empty_branch_txns_acked", int64(r.Pick(20, 300)))
 	r.FloorNontrivial(int64(r.Pick(50, 800)))
 	r.Finish()
@@ -186,7 +187,113 @@ func runOne(r *ev.Run, seed int64, profile string) {
 			}
 		}()
 	}
+	// static pairs zz/<n>=x (never modified afterwards): a range predicate over them takes a while,
+	// which puts time between the reads of one read-only transaction
+	for b := 0; b < 4; b++ {
+		req := &pb.TxnRequest{Table: []byte("t")}
+		for i := 0; i < 500; i++ {
+			req.Success = append(req.Success, &pb.RequestOp{Request: &pb.RequestOp_RequestPut{RequestPut: &pb.RequestOp_Put{Key: []byte(fmt.Sprintf("zz/%04d", b*500+i)), Value: []byte("x")}}})
+		}
+		o := &op{Client: 100, Node: 1, Kind: "txn", txn: req}
+		ctx, cancel := context.WithTimeout(context.Background(), 10*time.Second)
+		o.Call = clock.Add(1)
+		resp, err := c.Nodes[0].Engine.Txn(ctx, req)
+		o.Ret = clock.Add(1)
+		cancel()
+		if err != nil {
+			r.Inconclusive("setup write: " + err.Error())
+			return
+		}
+		o.txnR, o.Rev = resp, resp.GetHeader().GetRevision()
+		o.Desc = fmt.Sprintf("[%d..%d] setup TXN{500 x put zz/<n>=x} rev=%d", o.Call, o.Ret, o.Rev)
+		hist = append(hist, o)
+		maxAcked.Store(o.Rev)
+	}
 	var valCtr atomic.Int64
+	// bursts: every 20th operation of a writer is an empty-branch transaction issued together with
+	// the other writers' (a barrier with a 300 ms timeout), so that several of them are committed
+	// and applied in one apply call
+	var (
+		bmu      sync.Mutex
+		bwaiting int
+		brelease = make(chan struct{})
+	)
+	barrier := func(n int) {
+		bmu.Lock()
+		bwaiting++
+		ch := brelease
+		if bwaiting >= n {
+			bwaiting = 0
+			brelease = make(chan struct{})
+			close(ch)
+			bmu.Unlock()
+			return
+		}
+		bmu.Unlock()
+		select {
+		case <-ch:
+		case <-time.After(300 * time.Millisecond):
+			bmu.Lock()
+			if ch == brelease {
+				bwaiting = 0
+				brelease = make(chan struct{})
+				close(ch)
+			}
+			bmu.Unlock()
+		}
+	}
+	// probe readers (outside the judged history, with an oracle of their own): read-only transactions
+	// {if value(k) > pivot [and a slow predicate over the static pairs] then range(k) else range(k)}
+	// on every node; whatever state such a transaction reads, its 'succeeded' flag and the pair it
+	// returns describe ONE state
+	var stopProbe atomic.Bool
+	var pwg sync.WaitGroup
+	var tear atomic.Value
+	for p := 0; p < 3; p++ {
+		pwg.Add(1)
+		go func(p int) {
+			defer pwg.Done()
+			g := gen.New(seed*977 + int64(p))
+			e := c.Nodes[p].Engine
+			for n := 0; !stopProbe.Load() && tear.Load() == nil; n++ {
+				k := mapKeys[g.R.Intn(len(mapKeys))]
+				cmp := &pb.Compare{Key: k, Result: []pb.Compare_CompareResult{pb.Compare_GREATER, pb.Compare_LESS}[g.R.Intn(2)], Target: pb.Compare_VALUE,
+					TargetUnion: &pb.Compare_Value{Value: []byte(fmt.Sprintf("c%d", 2+g.R.Intn(6)))}}
+				req := &pb.TxnRequest{Table: []byte("t"), Compare: []*pb.Compare{cmp}}
+				if g.R.Intn(3) > 0 {
+					req.Compare = append(req.Compare, &pb.Compare{Key: []byte("zz/"), RangeEnd: []byte("zz0"), Result: pb.Compare_EQUAL, Target: pb.Compare_VALUE, TargetUnion: &pb.Compare_Value{Value: []byte("x")}})
+				}
+				rd := &pb.RequestOp{Request: &pb.RequestOp_RequestRange{RequestRange: &pb.RequestOp_Range{Key: k}}}
+				req.Success, req.Failure = []*pb.RequestOp{rd}, []*pb.RequestOp{rd}
+				if g.R.Intn(4) == 0 {
+					req.Failure = nil
+				}
+				ctx, cancel := context.WithTimeout(context.Background(), 8*time.Second)
+				resp, err := e.Txn(ctx, req)
+				cancel()
+				if err != nil {
+					r.Count("probe_txns_failed", 1)
+					time.Sleep(5 * time.Millisecond)
+					continue
+				}
+				r.Count("probe_readonly_txns", 1)
+				if len(resp.Responses) == 0 {
+					continue // empty failure branch
+				}
+				seen := model.NewTable()
+				seen.M["zz/0000"] = []byte("x") // the static pairs all hold x
+				for _, kv := range resp.Responses[0].GetResponseRange().GetKvs() {
+					seen.M[string(kv.Key)] = kv.Value
+				}
+				if seen.EvalCompare(req.Compare) != resp.Succeeded {
+					tear.Store(fmt.Sprintf("read-only transaction on node %d {if value(%q) %v %q%s then range(%q) else range(%q)}: succeeded=%v, yet its executed branch read %q=%q (present=%v): predicate and operation saw different states",
+						p+1, k, cmp.Result, cmp.GetValue(), map[bool]string{true: " and all zz/* == x", false: ""}[len(req.Compare) > 1], k, k, resp.Succeeded, k, seen.M[string(k)], seen.M[string(k)] != nil))
+					return
+				}
+				time.Sleep(time.Duration(g.R.Intn(3)) * time.Millisecond)
+			}
+		}(p)
+	}
 	for cl := 0; cl < nClients; cl++ {
 		wg.Add(1)
 		go func(cl int) {
@@ -200,7 +307,18 @@ func runOne(r *ev.Run, seed int64, profile string) {
 				val := []byte(fmt.Sprintf("c%d-%d", cl, valCtr.Add(1)))
 				key := mapKeys[g.R.Intn(len(mapKeys))]
 				ctx, cancel := context.WithTimeout(context.Background(), 8*time.Second)
+				burst := i%20 == 19
 				switch k := g.R.Intn(100); {
+				case burst:
+					// the predicate fails (the key never exists), the failure branch is empty
+					o.Kind, o.txn = "txn", &pb.TxnRequest{Table: []byte("t"),
+						Compare: []*pb.Compare{{Key: []byte("never-written")}},
+						Success: []*pb.RequestOp{{Request: &pb.RequestOp_RequestPut{RequestPut: &pb.RequestOp_Put{Key: key, Value: val}}}}}
+					if g.R.Intn(2) == 0 { // or: the predicate holds and the success branch is empty
+						o.txn.Compare[0].Result = pb.Compare_NOT_EQUAL
+						o.txn.Compare[0].TargetUnion = &pb.Compare_Value{Value: []byte("x")}
+						o.txn.Success, o.txn.Failure = nil, o.txn.Success
+					}
 				case k < 14:
 					o.Kind, o.put = "put", &pb.PutRequest{Table: []byte("t"), Key: key, Value: val, PrevKv: g.R.Intn(2) == 0}
 				case k < 22:
@@ -222,7 +340,7 @@ func runOne(r *ev.Run, seed int64, profile string) {
 					rq := &pb.RangeRequest{Table: []byte("t"), Linearizable: o.Lin}
 					switch g.R.Intn(3) {
 					case 0:
-						rq.Key, rq.RangeEnd = []byte{0}, []byte{0}
+						rq.Key, rq.RangeEnd = []byte{0}, []byte("zz") // everything but the static pairs
 					case 1:
 						rq.Key = regKeys[g.R.Intn(2)]
 					default:
@@ -259,6 +377,10 @@ func runOne(r *ev.Run, seed int64, profile string) {
 							r.Count("lag_samples_node3_behind_other_replicas", 1)
 						}
 					}
+				}
+				if burst {
+					barrier(nClients)
+					r.Count("empty_branch_txns_issued_in_bursts", 1)
 				}
 				o.Call = clock.Add(1)
 				var err error
@@ -304,8 +426,13 @@ func runOne(r *ev.Run, seed int64, profile string) {
 		}(cl)
 	}
 	wg.Wait()
+	stopProbe.Store(true)
+	pwg.Wait()
 	close(stopTransfer)
 	stopLag.Store(true)
+	if v := tear.Load(); v != nil {
+		r.Violation("readonly-transaction-reads-several-states", v.(string), witness{RunSeed: seed, Profile: profile, What: v.(string)})
+	}
 	r.Count("ops_recorded", int64(len(hist)))
 	if ambiguous.Load() {
 		var e string
@@ -329,6 +456,9 @@ func genTxn(g *gen.G, val []byte, readOnly bool) *pb.TxnRequest {
 			c.TargetUnion = &pb.Compare_Value{Value: []byte(fmt.Sprintf("c%d", g.R.Intn(9)))}
 		}
 		t.Compare = append(t.Compare, c)
+		if readOnly && i == 0 && g.R.Intn(2) == 0 {
+			t.Compare = append(t.Compare, &pb.Compare{Key: []byte("zz/"), RangeEnd: []byte("zz0"), Result: pb.Compare_EQUAL, Target: pb.Compare_VALUE, TargetUnion: &pb.Compare_Value{Value: []byte("x")}})
+		}
 	}
 	mk := func() *pb.RequestOp {
 		k := mapKeys[g.R.Intn(len(mapKeys))]
